@@ -235,6 +235,18 @@ impl World {
         }
     }
 
+    /// Is `s` announced as cheaply available by the candidates answer of package `n`?
+    pub fn hinted_by(&self, n: u32, s: u32) -> bool {
+        match self.packages.get(&n) {
+            Some(p) if !p.missing => match &p.hint {
+                Hint::None => false,
+                Hint::All => p.candidates.contains(&s),
+                Hint::Some(v) => v.contains(&s),
+            },
+            _ => false,
+        }
+    }
+
     pub fn n_solvables(&self) -> usize {
         self.solvables.len()
     }
@@ -272,10 +284,12 @@ impl World {
                     return Err(format!("package {n}: excluded {x} not a candidate"));
                 }
             }
+            // `HintDependenciesAvailable::Some` is a plain list of solvable ids: a provider may announce solvables of
+            // other packages with the answer for this one (bulk loaders do), so only existence is required
             if let Hint::Some(v) = &p.hint {
                 for x in v {
-                    if !cs.contains(x) {
-                        return Err(format!("package {n}: hinted {x} not a candidate"));
+                    if !self.solvables.contains_key(x) {
+                        return Err(format!("package {n}: hinted {x} is not a solvable"));
                     }
                 }
             }
